@@ -27,6 +27,10 @@ from simaple.gear.improvements.scroll import Scroll
 from simaple.gear.improvements.spell_trace import PROBABILITIES, STAT_PROP_TYPES, SpellTrace
 from simaple.gear.improvements.starforce import Starforce
 
+# ===== C17_Parts begin: the parts of a blueprint computed by the model (Props/C17_Parts.lean) =====
+from c17_parts import Parts
+# ===== C17_Parts end =====
+
 F8 = ["STR", "DEX", "INT", "LUK", "attack_power", "magic_attack", "MHP", "MMP"]
 ALL_FIELDS = list(Stat.model_fields)
 MULT = ("final_damage_multiplier", "ignored_defence")
@@ -209,7 +213,7 @@ def main(ck: Check):
     thorough = ck.tier == "thorough"
     lean = ck.locked()
     lean.__enter__()
-    ok_gen = ck.regenerate(["starforce", "core"])
+    ok_gen = ck.regenerate(["starforce", "core", "gearparts"])  # gearparts: C17_Parts
     proved = ok_gen and ck.prove("Simaple.Props.C17")
     if thorough and proved:
         ck.leanchecker(["Simaple.Props.C17"])
@@ -341,6 +345,15 @@ def main(ck: Check):
         add({"fn": "sf_increment", "m": meta_key(m), "t": t2, "amazing": int(amazing), "att": int(att)}, r2,
             "get_starforce_increment")
 
+    # ===== C17_Parts begin: generated tables, spell traces (exhaustive grid), scrolls, exceptional parts, bonus
+    # improvements and BonusSpec -- Lean model vs real code, exact; the part theorems' statements on the real code
+    parts = Parts(ck, reqs, expect, describe)
+    parts.timed("tables", parts.tables)
+    parts.timed("spell_traces", parts.spell_traces, metas)
+    parts.timed("scrolls", parts.scrolls)
+    parts.timed("bonuses", parts.bonuses, metas)
+    # ===== C17_Parts end =====
+
     # ------------------------------------------------------------ blueprints
     enhanceable = [gid for gid in metas if metas[gid].max_scroll_chance > 0]
     exc_ids = [gid for gid in metas if metas[gid].exceptional_enhancement]
@@ -414,6 +427,7 @@ def main(ck: Check):
         dump_meta = meta.model_dump()
         built = quiet_call(bp.build)
         bp_checked += 1
+        parts.blueprint(bp, built)  # C17_Parts: the same blueprint, described to the model WITHOUT any part contribution
         # ---- building never alters the blueprint or the base gear
         if bp.model_dump() != dump_bp or bp != snap_bp:
             bp_fail("build() altered the blueprint", meta, blueprint=dump_bp, after=bp.model_dump())
@@ -513,6 +527,10 @@ def main(ck: Check):
                                "bonuses": [(s.bonus_type.value, s.get_grade()) for s in bonuses],
                                "built": built.stat.short_dict()})
 
+    # ===== C17_Parts begin: blueprints that also leave the well-formed domain (same exception or same stat)
+    parts.timed("adversarial_blueprints", parts.adversarial_blueprints, repo, metas)
+    # ===== C17_Parts end =====
+
     # ------------------------------------------------------------ Lean side, one driver call
     res = ck.driver(reqs, timeout=900)
     lean.__exit__(None, None, None)
@@ -557,6 +575,8 @@ def main(ck: Check):
                          and stat_agree(o["stat"], py["stat"]))
             elif what == "GeneralizedGearBlueprint.build":
                 agree = stat_agree(r["ok"], py)
+            elif what.startswith("parts:"):  # C17_Parts
+                agree, detail = parts.agree(what, r["ok"], py, req)
             else:
                 agree = r["ok"] == py
             if not agree:
@@ -592,6 +612,39 @@ def main(ck: Check):
         "model_vs_code_requests": len(reqs), "model_vs_code_disagreements": disagreements,
         "per_correspondence_point": per_point,
     })
+    # ===== C17_Parts begin
+    pc = parts.coverage()
+    ck.coverage["evaluations"] += pc["spell_trace_calls"] + pc["bonus_calls"] + pc["scroll_calls"] + \
+        pc["exceptional_calls"] + pc["spec_cases"] + pc["adversarial_blueprints"]
+    ck.coverage["distinct_nontrivial"] += pc["distinct_nontrivial"]
+    ck.coverage["rule"] += (
+        " Parts (Props/C17_Parts.lean): SpellTrace.calculate_improvement on EVERY GearType member x 8 level bands x all "
+        "listed probabilities x all listed stat kinds (+ 4th-trace order x 10 job masks on every armor kind, + unlisted "
+        "probabilities/kinds, + the distinct (type, level, job) of shipped gears with scroll slots), Scroll / "
+        "ExceptionalEnhancement on random gear types, BonusFactory.create(kind, grade).calculate_improvement on one shipped "
+        "gear per (weapon type, level, boss flag, base attack) x 17 kinds x grades 1..7 (attack kinds also -8..9), "
+        "BonusSpec(grade, rank) validation/get_grade: every value compared EXACTLY with the Lean model; on the real code "
+        "every legal spell trace (weapon-likes 100/70/30/15, other classes 100/70/30; INT/DEX/LUK/STR/MHP) and every "
+        "bonus with a grade that exists on the gear must be a Stat with all 27 fields >= 0. Every random blueprint above "
+        "is also given to the model WITHOUT part contributions (description only: meta, spell traces, scrolls, stars, "
+        "bonus specs, exceptional stat) and the built stat / raised exception compared (exact on the 25 additive "
+        "fields, 1e-9 on the two multiplicative ones), plus adversarial blueprints outside the well-formed domain. "
+        "Distinct/non-trivial (parts): distinct (gear class, rank, probability, kind, 4th-trace case) of legal spell "
+        "traces + distinct (gear, kind, grade) of valid bonus options + built concrete blueprints.")
+    ck.coverage["samples"] = ck.coverage["samples"] + parts.samples
+    ck.coverage["parts"] = pc
+    if pc["shipped_gears_with_scroll_slots_outside_every_spell_trace_class"]:
+        ck.notes.append("spell traces are not defined (UnboundLocalError) on shipped gears with scroll slots whose type is in "
+                        "none of the five classes of SpellTrace.calculate_improvement: "
+                        + str(pc["shipped_gears_with_scroll_slots_outside_every_spell_trace_class"])
+                        + " -- outside the domain of spellTrace_defined (Traceable) and of the C17 statement; reported")
+    ck.assumptions += [
+        "C17_Parts: the concrete blueprint model evaluates spell traces / scrolls / bonus specs / the exceptional part "
+        "itself (Simaple.Model.GearParts over the generated Simaple.Gen.GearParts) and hands the values to the "
+        "composition model above; the bonus improvement is the C18 model Simaple.Bonus.improve (integer base attack: "
+        "floor of meta.base_stat, integral on all shipped gears; float ceil == exact ceil is part of the exact comparison)",
+    ]
+    # ===== C17_Parts end
     ck.assumptions += [
         "star force is modelled on integers: every base stat, table cell, spell-trace and scroll value fed is an "
         "integer (checked per call; a non-integral or foreign non-zero field is reported as a disagreement)",
@@ -607,6 +660,8 @@ def main(ck: Check):
                             "gen_starforce.py table/predicate extraction (validated against the live module in this run)",
                             "hand model Simaple/Model/Starforce.lean + GearBlueprint.lean (validated by the "
                             "correspondence in this run)",
+                            "C17_Parts: gen_gearparts.py extraction + hand model Simaple/Model/GearParts.lean (both "
+                            "validated against the live modules / real calculate_improvement in this run)",
                             "CPython float arithmetic exact on the integers involved; 1e-9 on the two multiplicative fields"],
               checker_cmd="cd lean && lake build Simaple.Props.C17 && lake env lean Simaple/Audit/C17.lean")
 
